@@ -157,6 +157,33 @@ def oracle(case):
     return None
 
 
+def enclosure_case(seed, i):
+    """the last clause through the read path that USES the bounds: a family of keys that are prefixes of one another or differ in
+    the byte after a common prefix, and List over [K, E) for every K of the family and E = K + one byte of the alphabet, K + \x00,
+    another key of the family, the end of the directory - the answer is exactly the live keys k with K <= k < E (the generic
+    snapshot oracle of hist.check_reads), whichever way the request is dispatched"""
+    r = rng_for(seed, "c10e/%d" % i)
+    base = r.choice([b"/r/a", b"/r/p/q", b"/r/k"])
+    fam = [base, base + b"/x", base + b"-x", base + b"%x", base + b"a", base + b"0", base + b"\xff", base + b"/x/y", base[:-1] + bytes([base[-1] + 1])]
+    r.shuffle(fam)
+    keys = fam[:r.randint(5, len(fam))]
+    if base not in keys:
+        keys.append(base)
+    sh = hist.Shadow()
+    lines = [hist.cfg_line(r.choice(["memkv", "badger"]))]
+    lines += hist.gen_writes(r, sh, 3 * len(keys), keys, values=[b"v1", b"v2"], p_ok=0.95)
+    old = sh.dealt
+    lines += hist.gen_writes(r, sh, 4, keys, values=[b"w1"], p_ok=0.95)
+    hi = b"/r0"
+    for rev in (0, old):
+        for K in keys:
+            ends = [K + bytes([c]) for c in (0x00, 0x25, 0x2d, 0x2f, 0x30, 0x61, 0xff)] + [r.choice(fam), hi]
+            for E in ends:
+                if K < E:
+                    lines.append("list %s %s %d %d" % (hx(K), hx(E), rev, r.choice([0, 0, 0, 1, 3])))
+    return core.Case("backend", lines, {"kind": "enclosure"})
+
+
 def check(rep, tier, seed):
     n_scripts, n_ops = (16, 700) if tier == "quick" else (256, 16000)
     cases = []
@@ -198,6 +225,18 @@ def check(rep, tier, seed):
         bad = bound_oracle(c)
         if bad:
             rep.violation(core.write_replay("C10", "range-bound", case=c, text="# " + bad))
+            return
+        if c.diff() is not None:
+            core.handle_diff(rep, "C10", "correspondence", c)
+            return
+    # ... and the enclosure itself, through List
+    ecases = [enclosure_case(seed, i) for i in range(4 if tier == "quick" else 120)]
+    core.run_cases(ecases)
+    for c in ecases:
+        rep.count_case(c)
+        hit = hist.check_reads(c)
+        if hit:
+            rep.violation(core.write_replay("C10", "range-enclosure", case=c, text="# " + hit[0]))
             return
         if c.diff() is not None:
             core.handle_diff(rep, "C10", "correspondence", c)
